@@ -84,7 +84,7 @@ theorem upsample_spacing (us k : ℤ) (hus : 1 ≤ us) :
 
 /-- the centre-of-mass refinement cannot move further than the clipped radius (from C04) -/
 theorem com_bounded (c r : ℤ) (com : ℚ) (hr : 0 ≤ r ∧ r ≤ 2) (hcom : 0 ≤ com ∧ com ≤ (2 * r + 1 : ℤ) - 1) :
-    |Gen.refined_coord c com r - (c : ℚ)| ≤ 2 := by
+    |Model.refined_coord c com r - (c : ℚ)| ≤ 2 := by
   have := C04.refine_within_r c r com hr hcom
   linarith [this.1, this.2]
 
